@@ -305,12 +305,12 @@ class C20(Property):
             x = self._float(rng)
             p = rng.choice([1, 1, 2, 2, 2, 3, 4, 5, 6])
             r = rng.random()
-            if r < 0.6:
+            if r < 0.7:
                 rel = 10.0 ** rng.uniform(-8, math.log10(0.5))
                 xe = abs(x) * rel
                 if rng.random() < 0.5:
                     xe = float('%.*g' % (rng.randint(1, 4), xe))
-            elif r < 0.8:
+            elif r < 0.95:
                 xe = float(rng.choice([1, 2, 3, 5, 9.6, 9.96, 0.95, 2.9, 3.49, 1.5])) * 10.0 ** (math.floor(math.log10(abs(x))) - rng.randint(1, 7))
             else:
                 xe = abs(self._float(rng))
